@@ -7,7 +7,7 @@ usage: tools/selftest.py [--property Cxx] [--no-seeds] [--jobs N]        exit 0 
 import argparse, json, os, shutil, subprocess, sys, tempfile, concurrent.futures as cf
 
 ROOT = os.path.dirname(os.path.dirname(os.path.abspath(__file__)))
-SEED_PROPS = {'C05-a': ['C01'], 'C10-a': ['C20'], 'C11-a': ['C01'], 'C04-a': ['C03'], 'C07-a': ['C07']}
+SEED_PROPS = {'C05-a': ['C01'], 'C10-a': ['C20'], 'C10-b': ['C20'], 'C11-a': ['C01'], 'C04-a': ['C03'], 'C07-a': ['C07']}
 
 
 def scratch_copy():
